@@ -462,6 +462,36 @@ def run_epochs(spec, res):
                             continue
                         res.case(('epochs', n, hn, rn, tn, seed), n >= 2)
                         res.count('multi_epoch_transparency_comparisons')
+                        # the report: the stage of the mapped function f counts as
+                        # many fetches as f was called (also when the stages below
+                        # are reached through the frozen copy of a shuffle)
+                        if hn == 'map' and tn in ('none', 'items', 'prefetch1', 'batch2',
+                                                  'items-prefetcht', 'prefetcht-items',
+                                                  'catch-items', 'prefetcht-catch'):
+                            calls = []
+
+                            def fc(x, calls=calls):
+                                calls.append(x)
+                                return ('f', x)
+                            try:
+                                pc = ld.core.ProfilingDataset(tail(rd(
+                                    ld.new(src).map(fc), np.random.RandomState(seed))))
+                                list(pc)
+                                list(pc)
+                                rep = repr(pc)
+                            except BaseException as e:
+                                res.violation('profiling-changes-observation', case,
+                                              exc_sig(e), sig={'aspect': 'epochs-count'})
+                                continue
+                            m_ = re.search(r'MapDataset\(<function \S*\.fc at 0x[0-9a-f]+>\)[^\n]*?hits = (\d+)',
+                                           rep)
+                            res.count('hit_counts_compared_behind_shuffles')
+                            if m_ is None or int(m_.group(1)) != len(calls):
+                                res.violation('hit-count-wrong', case,
+                                              {'function_calls': len(calls),
+                                               'reported': m_.group(1) if m_ else None,
+                                               'report': rep[-600:]},
+                                              sig={'aspect': 'epochs-count', 'tail': tn})
                         if got != want:
                             res.violation('profiling-changes-observation', case,
                                           {'profiled_epochs': got, 'plain_epochs': want},
